@@ -5,6 +5,13 @@ import math
 
 from harness import core, encgen as G
 
+# position of the harness's short class names in the model's EncClass.all / the reflective table's classNames
+CLASS_INDEX = {'embedding': 0, 'bag': 1, 'linear': 2, 'stack': 3, 'bucket': 4, 'periodic': 5, 'excel': 6, 'linemb': 7,
+               'linmodel': 8, 'timestamp': 9}
+CLASS_NAMES = ['EmbeddingEncoder', 'MultiCategoricalEmbeddingEncoder', 'LinearEncoder', 'StackEncoder',
+               'LinearBucketEncoder', 'LinearPeriodicEncoder', 'ExcelFormerEncoder', 'LinearEmbeddingEncoder',
+               'LinearModelEncoder', 'TimestampEncoder']
+
 LAZY_CLASSES = {
     'numerical': ['linear', 'periodic', 'excel'],      # bucket only runs in float32, see partial_notes
     'categorical': ['embedding'],
@@ -30,15 +37,38 @@ class C12(core.Check):
             'a random encoder class built with a random subset of its three lazy attributes, then assignments in a random '
             'order (with None assignments, repeated assignments and unrelated attributes mixed in), 20% with an NA strategy '
             'that init_modules rejects. Non-trivial = a wise case whose whole-frame output has >= 1 entry, or a lazy case '
-            'with >= 1 assignment; distinct = distinct case hash.')
+            'with >= 1 assignment; distinct = distinct case hash. '
+            'Hardening families (labels scale:* / cfg:* / dtype:* / values:* / hist:* of the input distribution): ~22% of the '
+            'wise cases carry one size from the stress ladder of the run\'s level (rows, a long batch, columns of one stype, '
+            'categories / tokens of one column with one cell holding the whole vocabulary, embedding width, channels); 30% '
+            'use LinearModelEncoder with stub user models whose col_to_model_cfg dict is written in an order unrelated to the '
+            'frame\'s column order; 30% list keys for stypes the dataset has no column of (70% admissible - must change '
+            'nothing -, 30% with an unsupported pairing or a child-stype key - construction must raise); sentinel look-alike '
+            'category / token / column names (-1, nan, None, w/W, label/label_prev), edge magnitudes and float64-only '
+            'numbers, float32 numerical / int32 categorical blocks; batches selected by list / int64 tensor / int32 tensor '
+            '/ boolean mask; earlier calls on the same encoder object (eval forward, training-mode forward, mode flips, '
+            'reset_parameters + same draw). Direct oracles for them: rolling the cells of ONE input column changes exactly '
+            'the slice of the column axis reported under that name; a LinearModelEncoder slice is the named column through '
+            'the model / weight / bias registered under its name; a fresh encoder with the same state_dict computes the same; '
+            'all 630 (class, stype, strategy) entries under a key whose stype is absent from the data are constructed '
+            '(unsupported pairings must be rejected) and compared with the model\'s key-by-key validation.')
     partial_notes = (
         'IEEE rounding, torch kernels (einsum, EmbeddingBag, LayerNorm): modelled, compared numerically on every run '
         '(float64, rel 1e-9 + abs 1e-12)',
         'LinearBucketEncoder can only run in float32 (its mask is built with .float()); TimestampEncoder casts to float32 '
         'before the cyclic encoding: those two are compared with a widened, magnitude-scaled tolerance (4e-6 x sum|terms|)',
-        'LinearModelEncoder (wrapper around user models) is covered by the admissibility tables only; GELU post modules '
-        'are not exercised (Lean Float has no erf)',
+        'LinearModelEncoder (wrapper around user models): the user model is opaque to the library; the check plugs in stub '
+        'models (tanh(Linear(cell)), one per column, widths 1-3) registered in a col_to_model_cfg dict whose insertion '
+        'order is unrelated to the frame\'s column order, on numerical / categorical / timestamp / embedding columns '
+        '(Model/EncoderLM.lean; multicategorical and text columns are not exercised with it). GELU post modules are not '
+        'exercised (Lean Float has no erf)',
+        'float64-only numerical values (0.1, 1/3, 2^24+1, ...) are generated for every encoder except LinearBucketEncoder '
+        '(float32 only); magnitudes beyond float32 (1e39) are not generated: (x - mean) / std overflows inside the encoder',
         'calendar_ranges (component ranges of every epoch second) is a hypothesis here; it is proved in C01',
+        'StackEncoder followed by LayerNorm is only generated with <= 2 channels (where mean(v, v) = v exactly): normalising a '
+        'vector of identical entries is pure cancellation (0 / sqrt(eps) plus the rounding of the mean, which depends on the '
+        'summation order), so kernel and model legitimately differ around the 9th digit (observed: 257 channels with the cell '
+        '-2^31, and 3 channels with an evaluation value far outside the training range)',
         '+-inf cells are clamped by nan_to_num to the largest finite value: finite by the letter, compared as such; '
         'they are not combined with LayerNorm (overflow to NaN inside the post module is outside the encoder)',
         'encoding_never_fails / stypewise_accepts_materialized take "the block is what the mappers emit for fitted data" '
@@ -56,24 +86,69 @@ class C12(core.Check):
         self._lazy_ctx = None
 
     # ------------------------------------------------------------------ generation
+    lean_targets = ('TFVerif.Proofs.EncoderLM',)
+    SCALE_SHARE = {0: 0.22, 1: 0.10, 2: 0.04}
+
     def generate(self, rng, n, tier):
         for i in range(n):
             if rng.random() < 0.15:
                 yield self.gen_lazy(rng)
             else:
                 force = G.NUM_CLASSES[i % 5] if rng.random() < 0.3 else None
-                case = G.gen_case(rng, force_num_cls=force)
+                case = G.gen_case(rng, force_num_cls=force, stress=self.gen_stress(rng))
                 self.restrict(case, rng)
                 yield case
+
+    def gen_stress(self, rng):
+        """the stress options of one wise case (harness/encgen.gen_case): families 1-6 of the hardening brief"""
+        from harness import stress
+        lvl, r = self.level, rng.random
+        o = {'lm': 0.5 if r() < 0.3 else 0.0,                 # LinearModelEncoder with stub user models
+             'extra': r() < 0.3,                               # keys for stypes the dataset has no column of
+             'special': r() < 0.2, 'edge': r() < 0.25, 'f64': r() < 0.5}
+        if r() < 0.3:
+            o['hist'] = [rng.choice(['fwd', 'fwd_row', 'fwd_empty', 'train_fwd', 'train_eval', 'reset'])
+                         for _ in range(rng.choice([1, 1, 2]))]
+        if r() < 0.15:
+            # (int32 calendar values are not generated: see observed_outside_generated_domain)
+            o['block_dtype'] = {s: d for s, d in (('numerical', 'f32'), ('categorical', 'i32')) if r() < 0.7}
+        if r() < self.SCALE_SHARE.get(lvl, 0.05):
+            def size(cap):
+                xs = [x for x in stress.ladder(lvl) if x <= cap]
+                return (max(xs) if r() < 0.5 else rng.choice(xs)) + rng.choice([0, 0, 1, 2])
+            dim = rng.choice(['rows', 'rows', 'batch', 'ncols', 'ncat', 'width', 'ch'])
+            o['scale'] = dim
+            if dim == 'rows':
+                o['rows'] = size(260 if lvl == 0 else 4100)      # (beyond ~4 100 rows the JSON correspondence no longer fits in memory)
+            elif dim == 'batch':
+                o['batch'] = size(260 if lvl == 0 else 4100)
+            elif dim == 'ncols':
+                o['ncols'] = size(260 if lvl == 0 else 520)
+                o['rows'] = rng.choice([2, 3, 4])
+            elif dim == 'ncat':
+                o['ncat'] = size(260 if lvl == 0 else 1030)
+                o['cell'] = rng.choice([17, 33, 65])
+                o['rows'] = o['ncat'] + rng.randint(0, 9)
+            elif dim == 'width':
+                o['width'] = size(130 if lvl == 0 else 520)
+            else:
+                o['ch'] = size(70 if lvl == 0 else 260)
+        return o
 
     @staticmethod
     def restrict(case, rng):
         """stay inside the property's domain / the comparable part (see partial_notes)"""
         e = case['enc'].get('numerical')
-        if e and e['post']['t'] == 'ln':
+        if e and (e['post']['t'] == 'ln' or e['cls'] == 'linmodel'):
+            # (+-inf through tanh(0 * inf + c) of a stub model / through LayerNorm is NaN inside the user's module)
             for c in case['cols']:
                 if c['stype'] == 'numerical':
                     c['values'] = [0.5 if isinstance(v, str) else v for v in c['values']]
+        e = case['enc'].get('numerical')
+        if e and e['cls'] == 'stack' and e['post']['t'] == 'ln' and case['ch'] > 2:
+            # StackEncoder repeats one number v over all channels; LayerNorm of a constant vector is 0/sqrt(eps) up to the
+            # rounding of mean(v, ..., v), which is exact only for 1 or 2 channels (v+v+v is not): pure cancellation noise
+            e['post'] = {'t': 'tanh'}
         e = case['enc'].get('multicategorical')
         if e and e['na'] == 'zeros':
             # ZEROS imputes category 0; a column without any category has none (reported separately)
@@ -124,15 +199,29 @@ class C12(core.Check):
         self._viol[key] = None
         if case['kind'] == 'lazy':
             return self.real_lazy(case, key)
+        if case['kind'] == 'table':
+            return self.real_table(case, key)
         t = G.T()
         torch, stype = t['torch'], t['stype']
+        extra = case.get('extra_keys', [])
+        must_raise = any(not k['ok'] for k in extra)
         try:
             ds, tf, wise = G.build(case)
         except Exception as ex:
             self._req[key] = self.requests_from_case_only(case)
-            self._viol[key] = core.Violation('C12/construct-raises', f'building the feature encoder for admissible choices '
-                                             f'raised {type(ex).__name__}: {str(ex)[:200]}', case, 'accepted', 'raises')
+            if not (must_raise and isinstance(ex, ValueError)):
+                self._viol[key] = core.Violation('C12/construct-raises', f'building the feature encoder for admissible choices '
+                                                 f'raised {type(ex).__name__}: {str(ex)[:200]}', case, 'accepted', 'raises')
             return {'construct': 'raises'}
+        if must_raise:
+            bad = [k for k in extra if not k['ok']][0]
+            self._req[key] = self.requests_from_case_only(case)
+            self._viol[key] = core.Violation(
+                'C12/admits-unsupported-pairing-for-absent-stype',
+                f'StypeWiseFeatureEncoder accepted stype_encoder_dict[{bad["stype"]}] = {CLASS_NAMES[CLASS_INDEX[bad["cls"]]]} '
+                f'(an unsupported pairing / a child-stype key); the dataset has no {bad["stype"]} column, but the pairing '
+                f'must be rejected at construction all the same', case, 'ValueError at construction', 'accepted')
+            return {'construct': 'ok'}
         stypes = G.canonical_stypes(tf)
         n = case['nrows']
         out = {'construct': 'ok', 'buffers': {}, 'batches': []}
@@ -145,7 +234,8 @@ class C12(core.Check):
             r, c, f = G.feat_json(tf, s)
             names = list(tf.col_names_dict[stype(s)])
             spec = G.enc_json(ds, tf, wise, case, s)
-            reqs.append({'cmd': 'enc', 'enc': spec, 'feat': f, 'rows': r, 'cols': c, 'names': len(names)})
+            reqs.append({'cmd': 'enc', 'enc': spec, 'feat': f, 'rows': r, 'cols': c, 'names': len(names),
+                         'colNames': names})
             groups.append((s, spec, names))
             tol_cols.append(self.group_tol(m, e, tf.feat_dict[stype(s)], c))
         whole = None
@@ -173,7 +263,7 @@ class C12(core.Check):
             reqs.append({'cmd': 'wise', 'groups': greq} if greq is not None else None)
         # per-batch absolute tolerance [rows][cols][ch] for the float32 parts
         out['tol'] = [self.batch_tol(tol_cols, G.batch_rows(b, n), case['ch']) for b in case['batches']]
-        self._req[key] = [r for r in reqs if r is not None]
+        self._req[key] = self.requests_from_case_only(case) + [r for r in reqs if r is not None]
         out['skipped'] = [i for i, r in enumerate(reqs[len(stypes):]) if r is None]
         if self._viol[key] is None:
             self._viol[key] = self.oracle_wise(case, ds, tf, wise, whole, out)
@@ -222,8 +312,37 @@ class C12(core.Check):
             out.append(row)
         return out
 
+    def real_table(self, case, key):
+        """replay of one entry of the absent-key table (extra_checks): one construction on the real code"""
+        import torch_frame
+        from torch_frame import NAStrategy
+        from torch_frame.nn.encoder import StypeWiseFeatureEncoder
+        from harness.tabs import encoder as tab
+        self._req[key] = []
+        if 'present' not in case:
+            return {'construct': 'table-entry', 'note': 'see extra_checks (admissibility table)'}
+        classes = dict(tab._classes())
+        c, st = classes[case['cls']], torch_frame.stype(case['stype'])
+        na = None if case['na'] is None else NAStrategy(case['na'])
+        other = torch_frame.categorical if st.parent == torch_frame.numerical else torch_frame.numerical
+        o_enc = classes['EmbeddingEncoder' if other == torch_frame.categorical else 'LinearEncoder']
+        try:
+            StypeWiseFeatureEncoder(2, {'c': tab._stats_for(other)}, {other: ['c']},
+                                    {st: tab._make(c, na_strategy=na), other: o_enc()})
+            acc = True
+        except Exception:                   # noqa
+            acc = False
+        if acc and (st != st.parent or st not in c.supported_stypes):
+            self._viol[key] = core.Violation(
+                'C12/admits-unsupported-pairing-for-absent-stype', f'construction accepted {case["cls"]} under the key '
+                f'{case["stype"]} although the pairing is unsupported (the data has no {case["stype"]} column)', case,
+                'ValueError', 'accepted')
+        return {'construct': 'accepted' if acc else 'raises'}
+
     def requests_from_case_only(self, case):
-        return []
+        """the constructor's key-by-key validation of the entries for absent stypes"""
+        return [{'cmd': 'accept', 'cls': CLASS_INDEX[k['cls']], 'stype': k['stype'], 'na': k['na'], 'present': False}
+                for k in case.get('extra_keys', [])]
 
     # ------------------------------------------------------------------ direct oracle on the real encoder
     def oracle_wise(self, case, ds, tf, wise, whole, out):
@@ -264,7 +383,108 @@ class C12(core.Check):
                 if names != sorted(names):
                     return core.Violation('C12/names-sorted', 'group names not sorted', case, sorted(names), names)
                 off += len(names)
-        return self.oracle_fitted(case, ds, tf) or self.oracle_embedding_rows(case, ds, tf, wise)
+        return (self.oracle_fitted(case, ds, tf) or self.oracle_embedding_rows(case, ds, tf, wise)
+                or self.oracle_column_axis(case, tf, wise, whole) or self.oracle_linear_model(case, tf, wise, whole)
+                or self.oracle_history(case, ds, tf, wise, whole))
+
+    @staticmethod
+    def roll_column(tf, s, j):
+        """the frame with the cells of column j of stype s moved down by one row (cyclically): every cell stays a value
+        of its own column (inside every encoder's domain), no other column is touched"""
+        t = G.T()
+        torch, stype = t['torch'], t['stype']
+        feat = tf.feat_dict[stype(s)]
+        if isinstance(feat, torch.Tensor):
+            f = feat.clone()
+            f[:, j] = torch.roll(feat[:, j], 1, dims=0)
+        elif s == 'multicategorical':
+            from torch_frame.data import MultiNestedTensor
+            cells = G.mnt_cells(feat)
+            col = [row[j] for row in cells]
+            col = col[-1:] + col[:-1]
+            f = MultiNestedTensor.from_tensor_mat([[torch.tensor(col[r] if c == j else cell, dtype=torch.long)
+                                                    for c, cell in enumerate(row)] for r, row in enumerate(cells)])
+        else:
+            from torch_frame.data import MultiEmbeddingTensor
+            vals, off = feat.values.clone(), feat.offset.tolist()
+            vals[:, off[j]:off[j + 1]] = torch.roll(feat.values[:, off[j]:off[j + 1]], 1, dims=0)
+            f = MultiEmbeddingTensor(feat.num_rows, feat.num_cols, vals, feat.offset)
+        fd = dict(tf.feat_dict)
+        fd[stype(s)] = f
+        return t['tf'].TensorFrame(fd, tf.col_names_dict, tf.y)
+
+    def oracle_column_axis(self, case, tf, wise, whole):
+        """"... together with the column names in the same order as the tensor's column axis", behaviourally: changing
+        the cells of the input column called names[g] changes slice g of the column axis and no other"""
+        import random
+        torch = G.T()['torch']
+        if whole is None or case['nrows'] < 2:
+            return None
+        r = random.Random(case['pseed'])
+        names = [nm for s in tf.stypes for nm in tf.col_names_dict[s]]
+        off = 0
+        for s in tf.stypes:
+            C = len(tf.col_names_dict[s])
+            j = r.randrange(C)
+            x2, names2 = wise(self.roll_column(tf, s.value, j))
+            diff = (torch.nan_to_num(x2.detach().double()) != torch.nan_to_num(whole.double())).any(dim=2).any(dim=0)
+            moved = [g for g in range(len(names)) if bool(diff[g])]
+            if any(g != off + j for g in moved):
+                return core.Violation(
+                    'C12/names-vs-column-axis', f'changing only the cells of input column {names[off + j]!r} ({s.value} column '
+                    f'{j}, reported at position {off + j} of the returned names) changed the slices '
+                    f'{[(g, names[g]) for g in moved]} of the output\'s column axis', case, [off + j], moved)
+            self._axis = getattr(self, '_axis', {'conclusive': 0, 'inconclusive': 0})
+            self._axis['conclusive' if moved else 'inconclusive'] += 1
+            off += C
+        return None
+
+    @staticmethod
+    def oracle_linear_model(case, tf, wise, whole):
+        """LinearModelEncoder: slice j of its block is the user model registered under names[j], applied to the cells of
+        column j, times the weight (plus the bias) registered under names[j]"""
+        t = G.T()
+        torch, stype = t['torch'], t['stype']
+        if whole is None:
+            return None
+        off = 0
+        for s in tf.stypes:
+            names = tf.col_names_dict[s]
+            e = case['enc'][s.value]
+            if e['cls'] == 'linmodel':
+                m = wise.encoder_dict[s.value]
+                feat = m.na_forward(tf.feat_dict[s])
+                for j, nm in enumerate(names):
+                    col = feat[:, j]
+                    if isinstance(col, torch.Tensor):
+                        col = col.view(-1, 1, 1) if col.ndim == 1 else col.unsqueeze(1)
+                    y = m.model_dict[nm](col) @ m.weight_dict[nm] + m.bias_dict[nm]
+                    y = torch.nan_to_num(y, nan=0)
+                    if m.post_module is not None:
+                        y = m.post_module(y)
+                    if not torch.equal(torch.nan_to_num(y[:, 0].detach()), torch.nan_to_num(whole[:, off + j])):
+                        return core.Violation(
+                            'C12/linear-model-column', f'slice {off + j} of the output (reported as column {nm!r}) is not the '
+                            f'encoding of column {nm!r} by the user model / weight / bias registered under that name '
+                            f'(col_to_model_cfg was written in the order {list(m.model_dict.keys())}, the frame\'s order '
+                            f'is {names})', case, y[:, 0].tolist(), whole[:, off + j].tolist())
+            off += len(names)
+        return None
+
+    @staticmethod
+    def oracle_history(case, ds, tf, wise, whole):
+        """whatever was called on the encoder object before, it computes what a freshly constructed encoder carrying the
+        same state_dict computes"""
+        torch = G.T()['torch']
+        if whole is None or not case.get('hist'):
+            return None
+        twin = G.build_wise({k: v for k, v in case.items() if k != 'hist'}, ds, tf)
+        twin.load_state_dict(wise.state_dict())
+        x2, _ = twin(tf)
+        if not torch.equal(torch.nan_to_num(x2.detach()), torch.nan_to_num(whole)):
+            return core.Violation('C12/history-dependent', f'after the calls {case["hist"]} the encoder differs from a fresh '
+                                  f'encoder with the same state_dict', case, x2.tolist(), whole.tolist())
+        return None
 
     @staticmethod
     def oracle_fitted(case, ds, tf):
@@ -489,10 +709,23 @@ class C12(core.Check):
         return {'cmd': 'lazy', 'ctor': ctor, 'events': case['events'], 'initFails': case['bad_na']}
 
     # ------------------------------------------------------------------ model side
+    # core.Check.replay prints the model outcome with json.dumps, which cannot render core.SKIP_MODEL: during a replay
+    # an oracle-only case reports a printable marker instead
+    _replaying = False
+
+    def replay(self, path):
+        self._replaying = True
+        return super().replay(path)
+
+    def skip_model(self):
+        return 'oracle-only case: not shipped to the Lean model' if self._replaying else core.SKIP_MODEL
+
     def model_requests(self, case):
         return self._req.get(core.stable_hash(case), [])
 
     def model_outcome(self, case, replies):
+        if case['kind'] == 'table':
+            return self.skip_model()
         if case['kind'] == 'lazy':
             rep = replies[0]
             if rep['construct'] != 'ok':
@@ -500,12 +733,16 @@ class C12(core.Check):
             return {'construct': 'ok', 'trace': rep['trace']}
         stypes = [s for s in G.STYPES if s in case['enc']]
         out = {'construct': 'ok', 'buffers': {}, 'batches': []}
+        nx = len(case.get('extra_keys', []))
+        if any(not rep['wiseKey'] for rep in replies[:nx]):
+            return {'construct': 'raises'}
+        replies = replies[nx:]
         if not replies:
-            return {'construct': 'model-not-asked'}
+            return {'construct': 'ok' if any(not k['ok'] for k in case.get('extra_keys', [])) else 'model-not-asked'}
         for s, rep in zip(stypes, replies):
             if rep['construct'] != 'ok':
                 return {'construct': 'raises'}
-            out['buffers'][s] = G.buffers_model(rep['buffers'], case['enc'][s])
+            out['buffers'][s] = G.buffers_model(rep['buffers'], case['enc'][s], s)
         for rep in replies[len(stypes):]:
             if rep.get('construct') != 'ok':
                 return {'construct': 'raises'}
@@ -517,12 +754,16 @@ class C12(core.Check):
         return out
 
     def equal(self, real, model):
+        if isinstance(model, str):
+            return model.startswith('oracle-only')
         if real.get('construct') != model.get('construct'):
             return False
         if real['construct'] != 'ok':
             return True
         if 'trace' in real:
             return self.equal_trace(real['trace'], model['trace'])
+        if 'buffers' not in real or 'buffers' not in model:
+            return 'buffers' not in real and 'buffers' not in model
         for s, br in real['buffers'].items():
             bm = model['buffers'].get(s)
             if bm is None or set(br) != set(bm):
@@ -571,13 +812,17 @@ class C12(core.Check):
         return self._viol.get(core.stable_hash(case))
 
     def nontrivial_key(self, case, r):
+        if case['kind'] == 'table':
+            return None
         if case['kind'] == 'lazy':
             return core.stable_hash(case) if case['events'] else None
-        if r.get('construct') == 'ok' and r['batches'] and r['batches'][0] != 'raises' and r['batches'][0]['shape'][0] > 0:
+        if r.get('construct') == 'ok' and r.get('batches') and r['batches'][0] != 'raises' and r['batches'][0]['shape'][0] > 0:
             return core.stable_hash(case)
         return None
 
     def classify(self, case, r):
+        if case['kind'] == 'table':
+            return ['kind:table-entry']
         if case['kind'] == 'lazy':
             labs = ['kind:lazy', f"lazy:cls:{case['enc']['cls']}", f"lazy:ctor-attrs:{len(case['ctor'])}",
                     f"lazy:bad-na:{case['bad_na']}"]
@@ -588,8 +833,53 @@ class C12(core.Check):
             else:
                 labs.append('lazy:end:constructor-raises')
             return labs
-        labs = ['kind:wise', f"rows:{case['nrows']}", f"ch:{case['ch']}", f"groups:{len(case['enc'])}",
-                f"cols:{len(case['cols'])}"]
+        def bucket(v):
+            for t in (16385, 4097, 2049, 1025, 513, 257, 129, 65, 33, 17):
+                if v >= t:
+                    return f'{t}+'
+            return str(v)
+        labs = ['kind:wise', f"rows:{bucket(case['nrows'])}", f"ch:{bucket(case['ch'])}", f"groups:{len(case['enc'])}",
+                f"cols:{bucket(len(case['cols']))}"]
+        if case['nrows'] >= 17:
+            labs.append(f"scale:rows:{bucket(case['nrows'])}")
+        if case['ch'] >= 17:
+            labs.append(f"scale:channels:{bucket(case['ch'])}")
+        per = {}
+        for c in case['cols']:
+            per[c['stype']] = per.get(c['stype'], 0) + 1
+            if c['stype'] in ('categorical', 'multicategorical'):
+                voc = {t for v in c['values'] if v for t in (v.split(',') if c['stype'] == 'multicategorical' else [v])}
+                if len(voc) >= 17:
+                    labs.append(f"scale:categories:{c['stype']}:{bucket(len(voc))}")
+                if voc & (set(G.SPECIAL_CATS) - {'a'}):
+                    labs.append('values:sentinel-like-categories')
+                if c['stype'] == 'multicategorical' and any(v and v.count(',') >= 16 for v in c['values']):
+                    labs.append('scale:cell-length:17+')
+            if c['stype'] == 'embedding' and len(c['values'][0]) >= 17:
+                labs.append(f"scale:embedding-width:{bucket(len(c['values'][0]))}")
+            if c['stype'] == 'numerical':
+                if any(isinstance(v, float) and v in G.F64_VALUES for v in c['values']):
+                    labs.append('dtype:float64-only-values')
+                if any(isinstance(v, float) and v in G.EDGE_VALUES for v in c['values']):
+                    labs.append('values:edge-magnitudes')
+            if c['name'] in G.SPECIAL_NAMES:
+                labs.append('values:special-column-names')
+        for st, k in per.items():
+            if k >= 17:
+                labs.append(f'scale:columns:{st}:{bucket(k)}')
+        for b in case['batches']:
+            if b['t'] in ('list', 'tensor32', 'tensor64') and len(b['idx']) >= 17:
+                labs.append(f"scale:batch:{bucket(len(b['idx']))}")
+        for k in case.get('extra_keys', []):
+            labs.append('cfg:absent-stype-key:' + ('admissible' if k['ok'] else 'inadmissible'))
+        for h in case.get('hist', []):
+            labs.append(f'hist:{h}')
+        for st, d in (case.get('block_dtype') or {}).items():
+            if st in case['enc']:
+                labs.append(f'dtype:{st}:{d}')
+        for s, e in case['enc'].items():
+            if e['cls'] == 'linmodel':
+                labs.append(f"cfg:linear-model:{s}:dict-order-{e['cfg_order']}")
         for s, e in case['enc'].items():
             labs.append(f"enc:{e['cls']}" + (f":{e['mode']}" if 'mode' in e else ''))
             labs.append(f"na:{s}:{e['na']}")
@@ -638,7 +928,93 @@ class C12(core.Check):
             report['broken'].append(f'admissibility table: driver unavailable ({ex})')
         report['extra']['admissibility_table'] = {'triples': len(reqs), 'exhaustive': True, 'disagreements': bad,
                                                   'accepted_by_stypewise': len(t['wiseAccepted'])}
-        report['extra']['observed_outside_generated_domain'] = self.probe_empty_vocabulary()
+        report['extra']['observed_outside_generated_domain'] = self.probe_empty_vocabulary() + self.probe_absent_bad_na()
+        report['extra']['names_vs_column_axis'] = getattr(self, '_axis', {})
+        self.absent_key_table(t, report)
+
+    def absent_key_table(self, t, report):
+        """every (class, stype, NA strategy) triple as an entry of stype_encoder_dict for a stype the data has NO column
+        of (the dataset has one numerical column, or one categorical column when the key is numerical): the property
+        requires unsupported pairings / child-stype keys to be rejected at construction regardless; compared with
+        the model's key-by-key validation (`wiseKeyOk … false`)"""
+        import torch_frame
+        from torch_frame import NAStrategy
+        from torch_frame.nn.encoder import StypeWiseFeatureEncoder
+        from harness.tabs import encoder as tab
+        stypes = list(torch_frame.stype)
+        nas = [None] + list(NAStrategy)
+        classes = tab._classes()
+        reqs, keys, code = [], [], []
+        for ci, (cn, c) in enumerate(classes):
+            for si, st in enumerate(stypes):
+                other = torch_frame.categorical if st.parent == torch_frame.numerical else torch_frame.numerical
+                o_enc = [cl for n_, cl in classes if n_ == ('EmbeddingEncoder' if other == torch_frame.categorical
+                                                            else 'LinearEncoder')][0]
+                for ni, na in enumerate(nas):
+                    try:
+                        StypeWiseFeatureEncoder(2, {'c': tab._stats_for(other)}, {other: ['c']},
+                                                {st: tab._make(c, na_strategy=na), other: o_enc()})
+                        acc = True
+                    except Exception:       # noqa
+                        acc = False
+                    code.append(acc)
+                    keys.append((cn, st, na))
+                    reqs.append({'cmd': 'accept', 'cls': ci, 'stype': st.value, 'na': None if na is None else na.value,
+                                 'present': False})
+        bad = 0
+        try:
+            reps = core.Driver(self.driver).ask(reqs)
+        except Exception as ex:             # noqa
+            report['broken'].append(f'absent-key table: driver unavailable ({ex})')
+            return
+        for (cn, st, na), acc, rep, (_, c) in zip(keys, code, reps, [cl for cl in classes for _ in stypes for _ in nas]):
+            must_reject = st != st.parent or st not in c.supported_stypes
+            what = f'{cn} under the key {st.value} (na_strategy={None if na is None else na.value}), no {st.value} column in the data'
+            if acc and must_reject:
+                report['violations'].append(core.Violation(
+                    'C12/admits-unsupported-pairing-for-absent-stype', 'construction accepted ' + what +
+                    ': an unsupported stype/encoder pairing must be rejected at construction',
+                    {'kind': 'table', 'cls': cn, 'stype': st.value, 'na': None if na is None else na.value, 'present': False},
+                    'ValueError', 'accepted'))
+            if rep['wiseKey'] != acc:
+                bad += 1
+                report['broken'].append(f'absent-key table: code {"accepts" if acc else "rejects"} {what}; model says {rep["wiseKey"]}')
+        report['extra']['absent_key_table'] = {'triples': len(reqs), 'exhaustive': True, 'disagreements': bad,
+                                               'accepted': sum(code)}
+
+    @staticmethod
+    def probe_absent_bad_na():
+        """recorded, not alarmed: an NA strategy that makes no sense for the stype is only rejected when the encoder is
+        materialized (init_modules), i.e. never for a key whose stype has no column"""
+        t = G.T()
+        st, E, NA = t['stype'], t['E'], t['NA']
+        case = {'nrows': 2, 'cols': [{'name': 'x', 'stype': 'numerical', 'values': [1.0, 2.0]}]}
+        try:
+            ds = G.make_dataset(case)
+            E.StypeWiseFeatureEncoder(2, ds.col_stats, ds.tensor_frame.col_names_dict,
+                                      {st.numerical: E.LinearEncoder(), st.timestamp: E.TimestampEncoder(na_strategy=NA.MEAN)})
+            res = 'accepted'
+        except Exception as ex:             # noqa
+            res = f'{type(ex).__name__}: {str(ex)[:100]}'
+        try:
+            case = {'nrows': 2, 'cols': [{'name': 't', 'stype': 'timestamp', 'values': ['2001-02-03 04:05:06', None]}]}
+            ds = G.make_dataset(case)
+            tf = ds.tensor_frame
+            enc = E.StypeWiseFeatureEncoder(2, ds.col_stats, tf.col_names_dict, {st.timestamp: E.TimestampEncoder()})
+            tf32 = t['tf'].TensorFrame({st.timestamp: tf.feat_dict[st.timestamp].to(t['torch'].int32)}, tf.col_names_dict, tf.y)
+            enc(tf32)
+            res32 = 'ok'
+        except Exception as ex:             # noqa
+            res32 = f'{type(ex).__name__}: {str(ex)[:100]}'
+        return [{'input': 'a timestamp block converted to int32 (the mapper emits int64) with an NA strategy', 'observed': res32,
+                 'note': 'na_forward writes the int64 fill value into the int32 block; not what the mappers emit, hence '
+                         'outside the property\'s domain - int32 category indices and float32 numbers are accepted and '
+                         'are generated (dtype:* labels)'},
+                {'input': 'stype_encoder_dict = {numerical: LinearEncoder(), timestamp: TimestampEncoder(na_strategy=MEAN)} '
+                          'on a dataset without timestamp columns', 'observed': res,
+                 'note': 'the strategy/stype validation lives in init_modules, which runs only once the lazy attributes are '
+                         'supplied; the encoder of an absent stype is never materialized, never attached and never run '
+                         '(the pairing checks - supported_stypes, parent stype - do apply to absent stypes and are checked)'}]
 
     @staticmethod
     def probe_empty_vocabulary():
